@@ -27,6 +27,12 @@ def plan(tier, seed):
         # two channels on ONE basis with different clocks: a phase barrier set by the fine channel is off the coarse channel's grid
         (corner("unit", prefix=A.GR, over={"rydberg_local": dict(clock=4, min_dur=8)}, name="unit-samebasis-clock-1-vs-4"),
          A.timing(l="r", basis_l="ground-rydberg", eom=False), 3),
+        # a spare Local channel declared first, without an initial target and never targeted (a valid channel with no slot at all)
+        (corner("real", prefix=[("declare", "s", "rydberg_local")] + A.GL, name="real-spare-untargeted-channel-first"), A.timing(), 2),
+        # a minimum duration that is NOT a multiple of the clock (clock 4, minimum 10): automatic waits at or below the minimum
+        # (retarget interval 8; an 8 ns cross-channel wait) must still land on the clock grid
+        (corner("unit", prefix=A.GR, over={"rydberg_local": dict(clock=4, min_dur=10, retarget=8)}, name="unit-min-duration-off-the-clock-grid"),
+         A.timing(l="r", basis_l="ground-rydberg", eom=False) + [("add", ["c", 100, 1.0, 0.0, 0.0], "g"), ("delay", 92, "r")], 3),
         (corner("unit8", prefix=A.GL, bw=30, eom=dict(mod_bandwidth=8), name="unit8-eom-slower-than-channel"), A.timing(), 2),
         (corner("awk", prefix=A.DEEP_GL_AFTER, name="awk-deep-root-after-eom"), A.timing(), 2),
     ]
